@@ -63,6 +63,25 @@ CHECKS.update({
             '(re-layout never changes tokens or code).', '3/C12'),
 })
 
+CHECKS.update({
+    'C04': ('Hypothesis program generator x stack-size sweep around the minimal stack size; replay monitor judging every load/store/jump of the committed path; differential + prefix rule below S_min',
+            'Generated-input search with a run-time invariant monitor on the VM (per-access entitlement: frame window, live '
+            'array extents tracked from ap, globals, protected words, jump targets) at every stack size from S_min+2 down to '
+            'S_min-3, plus the differential oracle.', '3/C04'),
+    'C05': ('grid enumeration of fault probes (kind x element type x storage x access form x boundary operand x word size) vs reference interpreter; replay monitor for "no effect before the fault"',
+            'The probe grid is enumerated (quick: all boundary-adjacent operands + a seeded quarter of the rest; thorough: '
+            'complete); the reference decides which fault occurs, the VM event stream must match exactly.', '3/C05'),
+    'C07': ('Hypothesis well-typed program generator + single-rule statement mutants; differential accept/reject vs independent typechecker; overload identity via output',
+            'Differential against an independent implementation of the documented typing rules in both directions, on '
+            'well-typed programs and on mutants placed at reachable sites.', '3/C07'),
+    'C08': ('Hypothesis program generator (arrays in nested scopes, every exit route); replay monitor on (fp, ap) at calls, loop instances and try/stop; entitlement monitor; differential at S_min',
+            'Generated-input search with run-time invariants sampled on the committed path at the labels hidc emits, plus '
+            'differential output at the minimal stack size.', '3/C08'),
+    'C16': ('Hypothesis control-flow body generator; fall-through monitor + tell-tale + differential; reference witness for "completes without returning"; structural acceptance rule',
+            'Generated-input search over function bodies; the witness rule and the fall-through monitor are exact per run, '
+            'acceptance is only demanded for documented shapes.', '3/C16'),
+})
+
 NOT_YET = {}
 
 
